@@ -41,6 +41,9 @@ EXHAUSTIVE = {"quick": False, "thorough": True}
 FINDING_STAND = "C11-argvals-stand-unguarded"
 
 
+_GUARD_CACHE = {}
+
+
 def _guard():
     """0: the argvals_stand setter is listed as an open finding (model = setter as coded); 1: repaired.
 
@@ -50,7 +53,18 @@ def _guard():
 
     if os.environ.get("VERIF_C11_STAND_GUARD") in ("0", "1"):
         return int(os.environ["VERIF_C11_STAND_GUARD"])
-    return 0 if any(f.get("id") == FINDING_STAND for f in common.load_findings(PROP)) else 1
+    if "v" not in _GUARD_CACHE:       # read once per process (the findings files may be rewritten concurrently)
+        for attempt in range(5):
+            try:
+                _GUARD_CACHE["v"] = 0 if any(f.get("id") == FINDING_STAND for f in common.load_findings(PROP)) else 1
+                break
+            except ValueError:
+                import time
+
+                time.sleep(0.5)
+        else:
+            raise common.InfraError("known findings unreadable")
+    return _GUARD_CACHE["v"]
 
 
 # --------------------------------------------------------------------------
@@ -656,6 +670,56 @@ def check_obj(x, shadow, fresh=False):
     return _dims_ok(x, fresh)
 
 
+def _plain_select(before, toks):
+    """What `obj[index]` must hold according to a plain list model of the state before the step:
+    per component the list of (label, content tag) at the selected *positions* (dense: label = None).
+    Returns ("err", class) when plain list indexing itself fails, None when not judged."""
+    try:
+        d = parse_state(before)
+    except Exception:  # noqa: BLE001
+        return None
+    if d["kind"] == "E":
+        return None
+    op = toks[0]
+
+    def positions(n):
+        pos = list(range(n))
+        if op == "gi":
+            return [pos[int(toks[1])]]
+        if op == "gs":
+            a, b, c = [None if t == "N" else int(t) for t in toks[1:4]]
+            return pos[slice(a, b, c)]
+        return [pos[i] for i in cu.intvec(toks[1])]
+
+    def comp(c):
+        if c["kind"] == "D":
+            return [(None, c["rows"][p]) for p in positions(len(c["rows"]))]
+        ent, seen = [], set()
+        by_label = {l: r for l, _, r in c["v"]}
+        for p in positions(len(c["a"])):
+            l = c["a"][p][0]
+            if l not in seen:
+                seen.add(l)
+                ent.append((l, by_label.get(l)))
+        return ent
+
+    try:
+        comps = [comp(c) for c in d["comps"]] if d["kind"] == "M" else [comp(d)]
+    except IndexError:
+        return ("err", "IndexError")
+    except ValueError:
+        return ("err", "ValueError")
+    if d["kind"] == "M" and len({len(c) for c in comps}) > 1:
+        return ("err", "ValueError")      # a repeated label collapses in an irregular component only
+    return ("ok", comps)
+
+
+def _content_of(state):
+    d = parse_state(state)
+    cs = d["comps"] if d["kind"] == "M" else [d]
+    return [[(None, r) for r in c["rows"]] if c["kind"] == "D" else [(l, r) for l, _, r in c["v"]] for c in cs]
+
+
 def run_history(ops, light=0):
     """Replay a history; the first `light` steps are replayed without reading the state back
     (exhaustive tier: the prefix is judged by its own, shorter, cases)."""
@@ -671,6 +735,8 @@ def run_history(ops, light=0):
         info = dict(_LAST_INFO)
         if wrong_class:
             info["wrong_class"] = True
+        if toks[0] in ("gi", "gs", "ga") and out != "na" and k + 1 > light:
+            info["plain_select"] = _plain_select(before, toks)
         if out != "ok":
             obj2, shadow2 = obj, shadow
         obj, shadow = obj2, shadow2
@@ -994,6 +1060,25 @@ def _judge(ops, steps):
         if info.get("cat_compatible") is False and st["out"] == "ok":
             vs.append(dict(clause="incompatible_accepted", entry=entry, causes=[], step=k,
                            msg=f"step {k} `{desc}`: incompatible pieces (class / dimension / grid / number of components) were concatenated into {st['state']}"))
+        ps = info.get("plain_select")
+        if ps:
+            ps = tuple(ps)
+            if ps[0] == "ok":
+                want = [[tuple(e) for e in c] for c in ps[1]]
+                if st["out"] != "ok":
+                    vs.append(dict(clause="select_plain", entry=entry, causes=["raises_" + st["out"]], step=k,
+                                   msg=f"step {k} `{desc}` raised {st['out']}; a plain list model of the object selects {want}"))
+                else:
+                    try:
+                        got = _content_of(st["state"])
+                    except Exception:  # noqa: BLE001
+                        got = None
+                    if got != want:
+                        vs.append(dict(clause="select_plain", entry=entry, causes=[], step=k,
+                                       msg=f"step {k} `{desc}` returned {st['state']}; the observations at the selected positions are (label, content tag) {want}"))
+            elif st["out"] == "ok":
+                vs.append(dict(clause="select_plain", entry=entry, causes=[], step=k,
+                               msg=f"step {k} `{desc}` was accepted ({st['state']}); plain list indexing raises {ps[1]}"))
         new_bad = [b for b in st["bad"] if b not in prev_bad]
         for b in new_bad:
             causes = []
